@@ -6,6 +6,7 @@ var fieldTypes = map[string]Type{
 	"I": TInt, "I32": TInt, "I8": TInt, "U64": TUint, "U16": TUint, "U8": TUint,
 	"F": TFloat, "F32": TFloat, "S": TString, "S2": TString, "B": TBool, "T": TTime,
 	"P": TPtr, "P2": TPtr, "PN": TInt, "P.X": TInt, "P.Y": TString, "P.Z": TFloat, "P.Q": TPtr, "P.Q.V": TInt, "P.Q.W": TString,
+	"L[].X": TInt, "L[].Y": TString, "L[].Z": TFloat, "MP[].X": TInt, "MP[].Y": TString, "MP[].Z": TFloat, "L[]": TPtr, "MP[]": TPtr,
 	"A[]": TInt, "AS[]": TString, "AF[]": TFloat, "M[]": TInt, "MS[]": TString,
 }
 
@@ -56,6 +57,12 @@ func TypeOf(e *Expr) Type {
 	case "call":
 		return Methods[e.Fn].Ret
 	case "bfn":
+		switch e.Fn {
+		case "Max", "Min", "Abs", "Floor", "Ceil", "Round", "Trunc":
+			return TFloat
+		case "GetTimeYear", "GetTimeMonth", "GetTimeDay":
+			return TInt
+		}
 		return TBool
 	case "vfn":
 		switch e.Fn {
